@@ -94,6 +94,49 @@ func splitSexprs(s string) []string {
 }
 
 func mk(so string, op string, args ...Term) Term {
+	// constant folding of simple bit-vector arithmetic and equalities
+	if len(args) == 2 {
+		switch op {
+		case "bvadd", "bvsub":
+			a, wa, oka := bvConst(args[0])
+			b, _, okb := bvConst(args[1])
+			if oka && okb {
+				r := new(big.Int)
+				if op == "bvadd" {
+					r.Add(a, b)
+				} else {
+					r.Sub(a, b)
+				}
+				return bvLit(wa, r)
+			}
+			if okb && b.Sign() == 0 {
+				return args[0]
+			}
+			if oka && a.Sign() == 0 && op == "bvadd" {
+				return args[1]
+			}
+		case "bvule", "bvult", "bvsle", "bvslt":
+			a, wa, oka := bvConst(args[0])
+			b, _, okb := bvConst(args[1])
+			if oka && okb {
+				if op[2] == 's' {
+					h := new(big.Int).Lsh(big.NewInt(1), uint(wa-1))
+					f := new(big.Int).Lsh(big.NewInt(1), uint(wa))
+					if a.Cmp(h) >= 0 {
+						a = new(big.Int).Sub(a, f)
+					}
+					if b.Cmp(h) >= 0 {
+						b = new(big.Int).Sub(b, f)
+					}
+				}
+				c := a.Cmp(b)
+				if op == "bvule" || op == "bvsle" {
+					return boolLit(c <= 0)
+				}
+				return boolLit(c < 0)
+			}
+		}
+	}
 	var b strings.Builder
 	b.WriteByte('(')
 	b.WriteString(op)
@@ -430,14 +473,37 @@ func mkIface(tag int, pv Term) Term {
 var nilIface = Term{"(mk-iface 0 0)", sIface}
 var nilSlice = Term{"(mk-slice 0 (_ bv0 64) (_ bv0 64) (_ bv0 64))", sSlice}
 
-func ifaceTag(i Term) Term { return mk(sInt, "i.tag", i) }
-func ifacePv(i Term) Term  { return mk(sInt, "i.pv", i) }
-func sliceBase(s Term) Term {
-	return mk(sInt, "s.base", s)
+// proj projects a constructor application syntactically when possible.
+func proj(t Term, ctor string, i int, so, sel string) Term {
+	if strings.HasPrefix(t.S, "("+ctor+" ") {
+		parts := splitSexprs(t.S[1 : len(t.S)-1])
+		if len(parts) > i+1 {
+			return Term{parts[i+1], so}
+		}
+	}
+	return mk(so, sel, t)
 }
-func sliceOff(s Term) Term { return mk(sBV64, "s.off", s) }
-func sliceLen(s Term) Term { return mk(sBV64, "s.len", s) }
-func sliceCap(s Term) Term { return mk(sBV64, "s.cap", s) }
+
+func ifaceTag(i Term) Term  { return proj(i, "mk-iface", 0, sInt, "i.tag") }
+func ifacePv(i Term) Term   { return proj(i, "mk-iface", 1, sInt, "i.pv") }
+func sliceBase(s Term) Term { return proj(s, "mk-slice", 0, sInt, "s.base") }
+func sliceOff(s Term) Term  { return proj(s, "mk-slice", 1, sBV64, "s.off") }
+func sliceLen(s Term) Term  { return proj(s, "mk-slice", 2, sBV64, "s.len") }
+func sliceCap(s Term) Term  { return proj(s, "mk-slice", 3, sBV64, "s.cap") }
+
+// bvConst parses a bit-vector literal.
+func bvConst(t Term) (*big.Int, int, bool) {
+	var n string
+	var w int
+	if !strings.HasPrefix(t.S, "(_ bv") {
+		return nil, 0, false
+	}
+	if _, err := fmt.Sscanf(t.S, "(_ bv%s %d)", &n, &w); err != nil {
+		return nil, 0, false
+	}
+	bi, ok := new(big.Int).SetString(n, 10)
+	return bi, w, ok
+}
 func mkSlice(base, off, ln, cp Term) Term {
 	return mk(sSlice, "mk-slice", base, off, ln, cp)
 }
